@@ -716,7 +716,7 @@ structure Honest (rx : Rx) (n total : Nat) (items : List (Nat × Nat)) : Prop wh
              ∃ so eo, rx.hdr (cstr l1) = some (so, eo) ∧ so ≤ eo ∧ eo ≤ (cstr l1).length ∧ boundaryOf (cstr l1) so eo = boundary n
   compP  : rx.comp (partPattern (boundary n)) = true
   compE  : rx.comp (endPattern (boundary n)) = true
-  parts  : ∀ r ∈ items, C05.RxFinds rx (partPattern (boundary n)) (partHdr n total r) (r.2 - r.1 + 1)
+  parts  : ∀ r ∈ items, r.1 ≤ r.2 → r.2 < W64 → C05.RxFinds rx (partPattern (boundary n)) (partHdr n total r) (r.2 - r.1 + 1)
 
 theorem accepted_lengths (fs : List Bytes) : accepted (fs.map List.length) fs = true := by
   unfold accepted
@@ -984,7 +984,7 @@ theorem round_complete (n : Nat) (H : HashFn) (rx : Rx) (B : Bytes) (th : Hdr) (
           unfold sliceIncl
           simp only [List.length_take, List.length_drop]
           omega
-        have hh := hon'.parts (spanOf g) hr
+        have hh := hon'.parts (spanOf g) hr hsp.1 (by omega)
         rw [hrxe]
         refine ⟨partHdr_noEarly n B.length (spanOf g), ?_, ?_, ?_⟩
         · intro h
